@@ -52,7 +52,13 @@ def run(ctx):
         finish_broken(ctx, "harness does not build")
         write_evidence(ctx, RULE)
         return
-    projects = [proj.gen_project(rng) for _ in range(ctx.budget(250, 5000))]
+    def dup_project(pairs):
+        return {"default": "en", "locales": ["en"], "all_locales": ["en"], "namespaces": None, "inherits": {},
+                "files": {(None, "en"): proj.O(pairs)}, "extra_cfg": False, "meta": {}}
+    # F13 witnesses: keys equal after trimming, in both orders, at top level and inside a subkey group
+    corpus = [dup_project([("a", "first"), ("a ", "second"), ("b", "x")]), dup_project([("a ", "second"), ("b", "x"), ("a", "first")]),
+              dup_project([("g", proj.O([("k", "1"), (" k", "2")])), ("b", "x")]), dup_project([("a", "same"), ("a", "same")])]
+    projects = corpus + [proj.gen_project(rng) for _ in range(ctx.budget(250, 5000))]
     base = run_projects(ctx, bins["json"], projects)
     again = run_projects(ctx, bins["json"], projects, want_model=False)
     for p, a, b in zip(projects, base, again):
